@@ -18,7 +18,7 @@ RULE = ("Mode G: edge plog.from_b64(x.to_b64()) (applied twice) from EVERY valid
 ASSUMPTIONS = ["pickle/gzip/base64 of the standard library are trusted", "caches are cleared per case (C09 owns cache state)"]
 BOUNDS = {"quick": "abc explicit/generated, at explicit, fixed/ab, diamonds explicit, conn2/ab generated, conn1s/abc; all 1..2-rule configurators",
           "thorough": "quick + abt, abct, conn2/abc generated/explicit, closure/ab, 3-rule configurators"}
-QUICK = ["abc/explicit", "abc/generated", "at/explicit", "fixed/ab", "diamond/explicit", "conn2/ab/generated", "conn1s/abc/generated/a3", "atmostneg/explicit", "ab/varnamed", "wide/1"]
+QUICK = ["abc/explicit", "abc/generated", "at/explicit", "fixed/ab", "diamond/explicit", "conn2/ab/generated", "conn1s/abc/generated/a3", "atmostneg/explicit", "ab/varnamed", "wide/1", "alt/mix3+abt+explicit"]
 THOROUGH = QUICK + ["abt/explicit", "abct/explicit", "conn2/abc/generated", "conn2/abc/explicit", "closure/ab/generated", "diamond/generated"]
 
 
